@@ -260,6 +260,7 @@ def gen_numpy_hand(rng):
 
 
 def _mock_texts():
+    impl()
     import doctrans.tests.mocks.docstrings as M
     out = []
     for k in sorted(dir(M)):
